@@ -178,14 +178,59 @@ func pname(p *ssa.Parameter) string {
 	if fn == nil {
 		return p.Name()
 	}
-	names, ok := baseParams[fnKey(fn)]
-	if !ok || len(names) != len(fn.Params) {
+	base, ok := baseParams[fnKey(fn)]
+	if !ok || len(base) == 0 {
 		return p.Name()
 	}
+	type nt struct{ name, typ string }
+	var bs []nt
+	for _, b := range base {
+		n, t := b, ""
+		if i := strings.Index(b, ":"); i >= 0 {
+			n, t = b[:i], b[i+1:]
+		}
+		bs = append(bs, nt{n, t})
+	}
+	curNames := map[string]bool{}
+	for _, q := range fn.Params {
+		curNames[q.Name()] = true
+	}
+	// the name is one the rules know for this function: nothing was renamed (parameters may have been reordered)
+	for _, b := range bs {
+		if b.name == p.Name() {
+			return p.Name()
+		}
+	}
+	ptyp := canonTypes(rawStrip(types.TypeString(p.Type(), nil)))
+	idx := -1
 	for i, q := range fn.Params {
 		if q == p {
-			return names[i]
+			idx = i
 		}
+	}
+	// same position, same type, and the old name is gone: renamed in place
+	if len(bs) == len(fn.Params) && idx >= 0 && canonTypes(bs[idx].typ) == ptyp && !curNames[bs[idx].name] {
+		return bs[idx].name
+	}
+	// otherwise: the one old parameter of this type whose name is gone, if this is the one new parameter of this type
+	var cands []string
+	for _, b := range bs {
+		if canonTypes(b.typ) == ptyp && !curNames[b.name] {
+			cands = append(cands, b.name)
+		}
+	}
+	nNew := 0
+	known := map[string]bool{}
+	for _, b := range bs {
+		known[b.name] = true
+	}
+	for _, q := range fn.Params {
+		if !known[q.Name()] && canonTypes(rawStrip(types.TypeString(q.Type(), nil))) == ptyp {
+			nNew++
+		}
+	}
+	if len(cands) == 1 && nNew == 1 {
+		return cands[0]
 	}
 	return p.Name()
 }
@@ -294,9 +339,9 @@ func dumpAnchors(c *Ctx, w *os.File) {
 		sort.Strings(fs)
 		var pn []string
 		for _, p := range fn.Params {
-			pn = append(pn, p.Name())
+			pn = append(pn, p.Name()+":"+rawStrip(types.TypeString(p.Type(), nil)))
 		}
-		lines = append(lines, strings.Join([]string{fp.name, fp.pkg, fp.recv, fp.sig, strings.Join(fs, "\x1f"), strings.Join(pn, ",")}, "\t"))
+		lines = append(lines, strings.Join([]string{fp.name, fp.pkg, fp.recv, fp.sig, strings.Join(fs, "\x1f"), strings.Join(pn, "\x1e")}, "\t"))
 	}
 	sort.Strings(lines)
 	for _, t := range typeFingerprints(c) {
@@ -326,9 +371,9 @@ func dumpAnchors(c *Ctx, w *os.File) {
 		}
 		var pn []string
 		for _, p := range fn.Params {
-			pn = append(pn, p.Name())
+			pn = append(pn, p.Name()+":"+rawStrip(types.TypeString(p.Type(), nil)))
 		}
-		cls = append(cls, "closure\t"+fnKey(fn)+"\t"+strings.Join(pn, ","))
+		cls = append(cls, "closure\t"+fnKey(fn)+"\t"+strings.Join(pn, "\x1e"))
 	}
 	sort.Strings(cls)
 	prev := ""
@@ -366,7 +411,7 @@ func readAnchors(path string) []anchorFP {
 			continue
 		}
 		if len(p) == 3 && p[0] == "closure" {
-			closureParams[p[1]] = strings.Split(p[2], ",")
+			closureParams[p[1]] = strings.Split(p[2], "\x1e")
 			continue
 		}
 		if len(p) < 5 || p[0] == "type" {
@@ -379,7 +424,7 @@ func readAnchors(path string) []anchorFP {
 			}
 		}
 		if len(p) > 5 && p[5] != "" {
-			fp.params = strings.Split(p[5], ",")
+			fp.params = strings.Split(p[5], "\x1e")
 		}
 		out = append(out, fp)
 	}
@@ -538,10 +583,33 @@ func applyAnchorAliases(c *Ctx, verifDir string) {
 				continue // a function the rules know under this very name
 			}
 			fp := fingerprint(fn)
-			if fp.pkg != b.pkg || fp.recv != b.recv || fp.sig != b.sig {
+			if fp.pkg != b.pkg {
 				continue
 			}
-			local = append(local, cand{missing: b, fn: fn, score: jaccard(b.feats, fp.feats)})
+			if fp.recv != b.recv {
+				// a function turned into a method of (a named type over) its first parameter, or the reverse
+				conv := false
+				if b.recv == "" && fp.recv != "" {
+					conv = funcMethodConversion(b.sig, fp.sig, fn)
+				}
+				if !conv {
+					continue
+				}
+				if sc := jaccard(b.feats, fp.feats); sc >= 0.6 {
+					local = append(local, cand{missing: b, fn: fn, score: sc - 0.1})
+				}
+				continue
+			}
+			sc := jaccard(b.feats, fp.feats)
+			if fp.sig != b.sig {
+				// a changed result list (or parameter list) is tolerated only for a body that is plainly the same one
+				sameParams := strings.SplitN(fp.sig, ")(", 2)[0] == strings.SplitN(b.sig, ")(", 2)[0]
+				if !sameParams || sc < 0.8 {
+					continue
+				}
+				sc -= 0.05
+			}
+			local = append(local, cand{missing: b, fn: fn, score: sc})
 		}
 		for i := range local {
 			local[i].nCands = len(local)
@@ -594,6 +662,7 @@ var pkgPrefixRe = regexp.MustCompile(`[A-Za-z0-9_.\-]+/`)
 // shortTypeName prints a type with package names instead of import paths ("proxy.fetchResult"), under the names
 // the rules know.
 func shortTypeName(t types.Type) string {
+	t = types.Unalias(t) // type propState[T] = commitable[overwritable[T]] is still a commitable
 	s := stripTypeArgs(types.TypeString(t, nil)) // full paths, aliases applied
 	return pkgPrefixRe.ReplaceAllString(s, "")
 }
@@ -696,4 +765,43 @@ func applyGlobalAliases(c *Ctx) {
 			aliasNotes = append(aliasNotes, fmt.Sprintf("variable alias: %s is analysed as %s (same package and type, old name gone)", cands[0], m))
 		}
 	}
+}
+
+// funcMethodConversion: oldSig is func(T1, rest...) R and fn is a method with parameters rest... and results R whose
+// receiver is T1, *T1 or a named type whose underlying type is T1.
+func funcMethodConversion(oldSig, newSig string, fn *ssa.Function) bool {
+	op := strings.SplitN(oldSig, ")(", 2)
+	np := strings.SplitN(newSig, ")(", 2)
+	if len(op) != 2 || len(np) != 2 || op[1] != np[1] {
+		return false
+	}
+	oparams := strings.Split(strings.TrimPrefix(op[0], "("), ",")
+	nparams := strings.Split(strings.TrimPrefix(np[0], "("), ",")
+	if np[0] == "(" {
+		nparams = nil
+	}
+	if len(oparams) != len(nparams)+1 {
+		return false
+	}
+	for i := range nparams {
+		if nparams[i] != oparams[i+1] {
+			return false
+		}
+	}
+	o := originOf(fn)
+	if o.Signature.Recv() == nil {
+		return false
+	}
+	rt := o.Signature.Recv().Type()
+	if p, ok := rt.(*types.Pointer); ok {
+		rt = p.Elem()
+	}
+	first := oparams[0]
+	cands := []string{rawStrip(types.TypeString(rt, nil)), rawStrip(types.TypeString(rt.Underlying(), nil)), rawStrip(types.TypeString(types.NewPointer(rt), nil))}
+	for _, c := range cands {
+		if canonTypes(c) == canonTypes(first) {
+			return true
+		}
+	}
+	return false
 }
